@@ -52,7 +52,7 @@ let () =
             run_mock_file_gen (z_of_string f.(1)) (z_of_string f.(2)) (parse_regs f.(3)) (z_of_string f.(4)) (unhex f.(5))
               (List.map mk recs) (names_of texts), 'A'
           end else begin
-            let k = match f.(1) with "x86" -> 0 | "amd64" -> 1 | "arm64" -> 2 | "arm" -> 3 | "mips" -> 4 | "mips64" -> 5 | _ -> failwith "arch" in
+            let k = match f.(1) with "x86" -> 0 | "amd64" -> 1 | "arm64" | "arm64_old" (* arm64_old.rs = arm64.rs modulo the context type: pinned by translate/c06_cfi_ops.py *) -> 2 | "arm" -> 3 | "mips" -> 4 | "mips64" -> 5 | _ -> failwith "arch" in
             let valid = if f.(3) = "all" then None
               else Some (if f.(3) = "-" then [] else List.map bytes_of_string (String.split_on_char ',' f.(3))) in
             run_real2_gen (z_of_int k) (parse_regs f.(2)) valid (z_of_string f.(4)) (unhex f.(5))
